@@ -244,7 +244,7 @@ def worker(case: Dict[str, Any]) -> CaseResult:
             cfg_l["plugins"] = plist
             cfg_l["target_package_name"] = name
             cfg_l["include_comments"] = "stable"
-            cfg = write_case(root, sdl, queries, cfg_l, extra_files=extra_files or None)
+            cfg = write_case(root, sdl, queries, cfg_l, extra_files=extra_files or None, section_style=case.get("section_style", "tool"))
             from pathlib import Path
             from types import SimpleNamespace
             gd = generate_in_subprocess(root, "client", cfg)
@@ -463,6 +463,8 @@ def run(tier: str, seed: int) -> int:
             pl.append(twin)
             pl.append([FR_MODULE if p_ == FR else p_ for p_ in twin])
         c["plugin_lists"] = pl
+        if i % 4 == 1:
+            c["section_style"] = "plain"  # the deprecated top-level [ariadne-codegen] table: plugins read their settings from the same place as the generator
         if i % 3 == 2:
             c["scalars"] = True
             c["dirty"] = sorted(set(c.get("dirty", [])) | {"schema.force_scalar"})
